@@ -157,8 +157,11 @@ def build_pool(seed, tier):
             src = rng.random()
             if src < 0.12:
                 d, s, sch = None, rng.choice(corpus.TYPED), "none"
-            elif src < 0.45:
+            elif src < 0.3:
                 d, s, sch = None, _gen_query(rng), "xyz"
+            elif src < 0.45:
+                # the shared query grammar: derived tables / CTEs that join, correlated subqueries over several outer columns, DNF filters
+                d, s, sch = None, corpus.gen_schema_query(rng), "xyz"
             elif src < 0.65:
                 d, s, sch = None, rng.choice(corpus.SCHEMA_QUERIES), "xyz"
             elif fixq:
